@@ -11,6 +11,10 @@ use syn::spanned::Spanned;
 use syn::visit_mut::VisitMut;
 use syn::{ImplItem, Item, Stmt};
 
+thread_local! {
+    static KEEP_TRAIT: std::cell::Cell<bool> = std::cell::Cell::new(false);
+}
+
 pub enum Group {
     Free { selector: String, item: Item },
     Impl {
@@ -275,6 +279,7 @@ fn emit_fn(
     canary: bool,
     external_body: bool,
 ) {
+    let in_trait_impl = matches!(vis, syn::Visibility::Inherited) && selector.contains("impl ") && KEEP_TRAIT.with(|k| k.get());
     let mut sig = sig.clone();
     let mut block = block.clone();
     let mut attrs: Vec<syn::Attribute> = attrs.to_vec();
@@ -391,8 +396,7 @@ fn emit_fn(
     let inputs = &sig.inputs;
     let constness = &sig.constness;
     let unsafety = &sig.unsafety;
-    let _ = vis;
-    let vis: syn::Visibility = syn::parse_quote!(pub);
+    let vis: syn::Visibility = if in_trait_impl { syn::Visibility::Inherited } else { syn::parse_quote!(pub) };
     let head = quote!(#vis #constness #unsafety fn #ident #generics (#inputs));
     pr.stream(head, &markers, false);
     if let syn::ReturnType::Type(_, ty) = &sig.output {
@@ -443,7 +447,10 @@ pub fn emit_group(
     used: &mut Vec<String>,
     canaries: bool,
 ) {
-    let _ = module;
+    let modpfx: String = match module {
+        Some(m) => format!("{}/", m),
+        None => String::new(),
+    };
     let lines: Vec<&str> = text.lines().collect();
     let src_of = |a: usize, b: usize| -> String {
         let a = a.max(1);
@@ -451,9 +458,10 @@ pub fn emit_group(
         lines[a - 1..b].join("\n")
     };
     let lookup = |sel: &str, used: &mut Vec<String>| -> Option<&ItemContract> {
-        let c = contracts.items.get(sel);
+        let key = format!("{}{}", modpfx, sel);
+        let c = contracts.items.get(&key);
         if c.is_some() {
-            used.push(sel.to_string());
+            used.push(key);
         }
         c
     };
@@ -570,7 +578,12 @@ pub fn emit_group(
                         if let syn::TraitItem::Fn(tf) = ti {
                             let msel = format!("{}::{}", selector, tf.sig.ident);
                             let mc = lookup(&msel, used);
-                            let sig = &tf.sig;
+                            let mut sig2 = tf.sig.clone();
+                            {
+                                let mut rw = rules::Rewriter { cfg, fired, tmp: 0, self_err: None };
+                                rw.visit_signature_mut(&mut sig2);
+                            }
+                            let sig = &sig2;
                             let ident = &sig.ident;
                             let generics = &sig.generics;
                             let inputs = &sig.inputs;
@@ -611,6 +624,7 @@ pub fn emit_group(
                 }
                 None => false,
             };
+            KEEP_TRAIT.with(|k| k.set(keep_trait));
             let generics = &header.generics;
             let self_ty = &header.self_ty;
             let where_c = &header.generics.where_clause;
@@ -632,6 +646,19 @@ pub fn emit_group(
             pr.stream(head, &Markers::default(), false);
             pr.word("{", false);
             pr.newline();
+            // impl-level spec items (e.g. the spec fns of a kept trait impl)
+            {
+                let ty_last = type_last_ident(&header.self_ty).unwrap_or_default();
+                let key = match &header.trait_ {
+                    Some((_, p, _)) => format!("impl {} for {}", p.segments.last().unwrap().ident, ty_last),
+                    None => format!("impl {}", ty_last),
+                };
+                if let Some(c) = lookup(&key, used) {
+                    if let Some(spec) = &c.spec {
+                        pr.contract_block(spec);
+                    }
+                }
+            }
             let mut self_err: Option<Vec<(String, syn::Type)>> = None;
             for t in &assoc_types {
                 if keep_trait {
